@@ -53,6 +53,13 @@ static std::atomic<int> g_in_commit{0};
 static long g_call = -1;
 static long g_virtual_time = 1700000000;    // the virtual clock (seconds)
 
+// tools/check_coverage.py (VERIF_FLAVOUR=cov): gcov writes its counters from an exit handler, which exit_group skips.
+// Everything observable has been printed by now, so a measured run may leave through exit(); a checking run never does.
+static void leave_for_coverage() {
+  const char* f = getenv("VERIF_FLAVOUR");
+  if (f && std::string(f) == "cov") { g_armed.store(false); exit(0); }
+}
+
 static void raw_line(const std::string& s) {
   if (g_logfd < 0) return;
   std::string l = s + "\n";
@@ -371,6 +378,7 @@ static int run_main(int argc, char** argv) {
     ++idx;
   }
   raw_line("total fs=" + std::to_string(g_fs_count.load()) + " ops=" + std::to_string(g_ops.load()));
+  leave_for_coverage();
   // leave like a killed process would: no orderly shutdown (every kill index < total was its own run)
   syscall(SYS_exit_group, 0);
   return 0;
@@ -416,6 +424,7 @@ static int verify_main(int argc, char** argv) {
   }
   printf("usable %d\n", usable);
   fflush(stdout);
+  leave_for_coverage();
   syscall(SYS_exit_group, 0);
   return 0;
 }
